@@ -1,0 +1,12 @@
+//go:build verif
+// +build verif
+
+package memdb
+
+// VerifKVData returns the key/value arena of the DB over its full capacity (the very array Put appends
+// into, not a copy). Only the verification harness uses it, to compare addresses.
+func (p *DB) VerifKVData() []byte {
+	p.mu.RLock()
+	defer p.mu.RUnlock()
+	return p.kvData[:cap(p.kvData)]
+}
